@@ -20,6 +20,9 @@ COMMON_NOTE = ("Trusted: the harness's dense long-double reference, the choice-s
                "Exploration only: the property is shown to hold on the generated cases (counts in the evidence file), nothing is proved.")
 
 INFO = {
+    "C18": dict(level="exploration", assumptions=["argument positions read off the routine signatures and headers; ColPerm outside its enumeration is a documented ABORT, not an info return, and is not generated"], note=COMMON_NOTE,
+                technique="property-based testing (rapidcheck) over a table of single-argument corruptions applied to a randomly generated valid call; exact info value, bit-exact snapshots, allocation-ledger balance",
+                text="Every (routine, corruption) pair of the table is exercised many times per run on random valid base calls; the evidence lists the pairs covered. The space of corruptions is small and enumerated by the table; the base call is random."),
     "C16": dict(level="exploration", assumptions=["files are written by the harness's own encoder (C printf) with header fields padded to the full card width; Fortran syntax beyond (nIw), (n{E,D,F}w.d) and the (kPn{E,D}w.d) form named in the reader's comment is not generated", "stdin is re-pointed at an in-memory stream for the readers that read stdin"], note=COMMON_NOTE,
                 technique="property-based testing (rapidcheck): write/read round trip with a structured file encoder (format descriptors, widths, case, symmetric storage, entry order) under ASan",
                 text="A generated matrix and a generated encoding are written to an in-memory file and read back through each reader; dimensions, pattern and values must equal what was written, to the printed precision."),
@@ -60,7 +63,7 @@ INFO = {
 
 NOT_APPLICABLE = {}
 
-PROPS = ["C01", "C02", "C03", "C04", "C05", "C10", "C11", "C12", "C13", "C14", "C16", "C17"]
+PROPS = ["C01", "C02", "C03", "C04", "C05", "C10", "C11", "C12", "C13", "C14", "C16", "C17", "C18"]
 
 
 def all_props():
